@@ -5,6 +5,7 @@ theorem step_spec (lim : Nat) (tbl : List Nat) (id i : Nat) (t : List Nat) (hl :
     (hn : tbl.Nodup) (h : step lim tbl id = some (i, t)) :
     t.length ≤ lim ∧ i < t.length ∧ tbl.length ≤ t.length ∧ t.Nodup ∧ t[i]? = some id := by
   unfold step at h
+  simp only at h
   by_cases h1 : tbl.idxOf id < tbl.length
   · rw [if_pos h1] at h
     simp only [Option.some.injEq, Prod.mk.injEq] at h
